@@ -82,8 +82,10 @@ for c in man["checks"]:
             err(f"{pid}: exploration level needs evaluations >= 1, distinct_nontrivial >= 2 and a rule")
         if d != 0 or n != 0:
             err(f"{pid}: exploration level must not count obligations as discharged ({d} / {n})")
-        if any(b.get("status") != "proved" for b in cov.get("bounded_checks", [])):
-            err(f"{pid}: a bounded check did not hold: {[b.get('name') for b in cov.get('bounded_checks', []) if b.get('status') != 'proved']}")
+        # a bounded check may fail only as a recorded known finding (KNOWN-FINDING line, exit 0)
+        bad = [b.get("name") for b in cov.get("bounded_checks", []) if b.get("status") != "proved" and b.get("name") not in cov.get("known_findings_matched", [])]
+        if bad:
+            err(f"{pid}: a bounded check did not hold: {bad}")
     else:
         known = cov.get("known_findings_matched", [])
         if sorted(cov.get("refuted", [])) != sorted(known):
